@@ -566,11 +566,17 @@ def plan_c20():
             {"name": "C20.serde.native", "flavour": "native", "args": ["serde", "values=%d" % T(tier, 5000, 200000)], "shards": 4, "threads": 1, "timeout": 1200},
             {"name": "C20.serde.asan", "flavour": "asan", "args": ["serde", "values=%d" % T(tier, 1500, 50000)], "shards": 4, "threads": 1, "timeout": 1200},
             {"name": "C20.serde.miri", "flavour": "miri", "args": ["serde", "values=%d" % T(tier, 1, 3)], "miri_seeds": T(tier, 4, 32), "timeout": 1500},
+            # serialization racing with stores from another thread, all three strategies
+            {"name": "C20.serde.conc.native", "flavour": "native", "args": ["serde", "values=10", "rounds=%d" % T(tier, 40, 2000)], "shards": 2, "threads": 3, "timeout": 1200},
+            {"name": "C20.serde.conc.asan", "flavour": "asan", "args": ["serde", "values=10", "rounds=%d" % T(tier, 20, 600)], "shards": 2, "threads": 3, "timeout": 1200},
+            {"name": "C20.serde.conc.tsan", "flavour": "tsan", "args": ["serde", "values=10", "rounds=%d" % T(tier, 10, 300)], "shards": 2, "threads": 3, "timeout": 1200},
+            {"name": "C20.serde.conc.miri", "flavour": "miri", "args": ["serde", "nohooks", "values=1", "rounds=1", "stores=5"], "miri_seeds": T(tier, 8, 96), "timeout": 1500},
         ]
 
     def ev(merged, results):
         c = merged["counters"]
-        return {"evaluations": c.get("serde.values", 0), "law_checks": c.get("serde.law_checks", 0),
+        return {"evaluations": c.get("serde.values", 0) + c.get("serde.concurrent.rounds", 0), "law_checks": c.get("serde.law_checks", 0),
+                "concurrent_rounds": c.get("serde.concurrent.rounds", 0), "serializations_racing_with_stores": c.get("serde.concurrent.serializations", 0),
                 "strategies": ["default", "fallback-only", "rwlock"], "flavours": sorted(set(r["flavour"] for r in results if r["report"]))}
     return {
         "level": "exploration",
@@ -579,7 +585,9 @@ def plan_c20():
                  "tuples, char, map, unit, all four enum variant shapes) plus its scalar / string / Option<Vec> parts, pushed through ~95 law checks: container vs "
                  "pointee serialization (string and token tree) for ArcSwap and ArcSwapOption (Some / None) under the three default-constructible strategies, "
                  "serialization after a store, deserialization (value and reference count), round trip, a store made from inside the pointee's Serialize impl "
-                 "(snapshot must be unaffected and alive), deserialize_in_place with guards outstanding. Non-trivial: every value; distinct = distinct serialized form."),
+                 "(snapshot must be unaffected and alive), deserialize_in_place with guards outstanding. The `conc` jobs add rounds (one evaluation each) in which two threads "
+                 "serialize a container while a third stores fresh probe values into it, for each of the three strategies, natively, under ASan, TSan and Miri: every output must "
+                 "be one whole live probe and a thread's outputs never go backwards. Non-trivial: every value / round; distinct = distinct serialized form."),
         "evidence": ev,
         "assumptions": ["serde_json's Value / string rendering is used as the observation of serde's data model (it distinguishes all value shapes generated here)."],
         "min_evaluations": {"quick": 500, "thorough": 20000},
